@@ -168,6 +168,9 @@ func main() {
 	}
 	var id, tier string
 	if *replay != "" {
+		if abs, err := filepath.Abs(*replay); err == nil {
+			*replay = abs // the test binary runs in another directory
+		}
 		b, err := os.ReadFile(*replay)
 		if err != nil {
 			fatal(2, "%v", err)
